@@ -20,7 +20,6 @@ package calc_test
 import (
 	"fmt"
 	"net/netip"
-	"os"
 	"sort"
 	"strings"
 	"testing"
@@ -32,10 +31,6 @@ import (
 	"github.com/projectcalico/calico/libcalico-go/lib/backend/model"
 	"github.com/projectcalico/calico/verifkit/ev"
 )
-
-// c36SigDeleteOther is the signature of the behaviour "DeleteKey(cidr, k) on a CIDR that stores
-// exactly one, different key removes that other key" (see c36IPTrieDeleteOtherKnown).
-const c36SigDeleteOther = "c36-iptrie-delete-absent-key-removes-the-only-other-key"
 
 var c36TrieKeys = []string{"gset-a", "gset-b", "ns1/set-a", "ns1/set-b", "ns2/set-a", "ns2/zz"}
 
@@ -208,8 +203,6 @@ func TestVerifC36IpTrie(t *testing.T) {
 		"rapid state machine over one calc.IpTrie (IPv4 and IPv6 mixed, as in NetworkSetLookupsCache): InsertKey (new pair, second key on a stored CIDR, pair that is already stored), DeleteKey (stored pair, absent pair on an empty / single-key / multi-key CIDR) over densely nested prefixes (/0, /8, /23../32; ::/0, /32, /62../65, /126../128) and 6 network-set keys (global and two namespaces); after every step GetKeys for the touched CIDR and its neighbours and GetLongestPrefixCidr / ...WithNamespaceIsolation for addresses inside stored prefixes are compared with a map of (CIDR,key) pairs + net/netip; full sweep of all touched CIDRs at the end. Non-trivial = a pair was inserted while stored and later deleted, or a CIDR held >=2 keys and lost one; distinct = op-kind sequence",
 		"the stored prefixes are the set of (CIDR,key) pairs inserted and not deleted since (re-inserting a stored pair and deleting an absent pair change nothing)", "net/netip prefix arithmetic is the reference")
 	defer rec.Write()
-	// VERIF_C36_ASSUME_KNOWN: temporary development switch, same effect as the listing.
-	known := ev.Known(c36SigDeleteOther) || os.Getenv("VERIF_C36_ASSUME_KNOWN") != ""
 
 	rapid.Check(t, func(t *rapid.T) {
 		tr := calc.NewIpTrie()
@@ -299,10 +292,6 @@ func TestVerifC36IpTrie(t *testing.T) {
 						multiKeyDelete = true
 					}
 				case len(m[p]) == 1:
-					if known {
-						rec.Excluded(c36SigDeleteOther)
-						return
-					}
 					ops = append(ops, "x1") // absent pair, the CIDR stores exactly one other key
 				case len(m[p]) > 1:
 					ops = append(ops, "xn")
@@ -349,10 +338,10 @@ func TestVerifC36IpTrie(t *testing.T) {
 	})
 }
 
-// TestVerifC36KnownIpTrieDeleteOtherKey is the deterministic confirmation of finding
-// c36-iptrie-delete-absent-key-removes-the-only-other-key (not matched by the unit's run regex):
-// it FAILS while the defect is present.
-func TestVerifC36KnownIpTrieDeleteOtherKey(t *testing.T) {
+// TestVerifC36RegressionIpTrieDeleteOtherKey: regression test for the (fixed) finding
+// c36-iptrie-delete-absent-key-removes-the-only-other-key — DeleteKey(cidr, k) used to remove the
+// node of a CIDR that held exactly one key without checking that the key was k.
+func TestVerifC36RegressionIpTrieDeleteOtherKey(t *testing.T) {
 	ev.Quiet()
 	tr := calc.NewIpTrie()
 	c := ip.MustParseCIDROrIP("10.0.0.0/24")
@@ -360,5 +349,8 @@ func TestVerifC36KnownIpTrieDeleteOtherKey(t *testing.T) {
 	tr.DeleteKey(c, model.NetworkSetKey{Name: "gset-b"}) // not stored
 	if keys, ok := tr.GetKeys(c); !ok || len(keys) != 1 || keys[0] != model.Key(model.NetworkSetKey{Name: "gset-a"}) {
 		t.Fatalf("after InsertKey(10.0.0.0/24, gset-a); DeleteKey(10.0.0.0/24, gset-b): GetKeys = (%v, %v), want ([gset-a], true)", keys, ok)
+	}
+	if k, ok := tr.GetLongestPrefixCidr(ip.FromString("10.0.0.7")); !ok || k != model.Key(model.NetworkSetKey{Name: "gset-a"}) {
+		t.Fatalf("GetLongestPrefixCidr(10.0.0.7) = (%v, %v), want (gset-a, true)", k, ok)
 	}
 }
